@@ -128,7 +128,7 @@ func VerifC04YAMLTypes() {
 // loader and applied with the real rewriter to builders derived from a small schema; then what the
 // pipeline does with builders next (nil-check pass). Error or result, never a panic.
 func VerifC04YAMLVeneers() {
-	path := v.Str("path", "opts.level", "opts", "name", "", "opts.level.deeper", "nope", "opts.", ".", "tags", "other.x")
+	path := v.Str("path", "opts.level", "opts", "name", "", "opts.level.deeper", "nope", "opts.", ".", "tags", "other.x", "vars", "items")
 	t := c04TypeDoc()
 	arg := c04Obj("name", "a", "type", t)
 	var value v.J
@@ -171,6 +171,8 @@ func VerifC04YAMLVeneers() {
 		ast.NewStructField("name", ast.String()),
 		ast.NewStructField("tags", ast.NewArray(ast.String())),
 		ast.NewStructField("opts", ast.NewRef("p", "Opts")),
+		ast.NewStructField("vars", ast.NewMap(ast.String(), ast.NewRef("p", "Opts"))),
+		ast.NewStructField("items", ast.NewArray(ast.NewRef("p", "Opts"))),
 		ast.NewStructField("other", ast.NewRef("q", "Missing")),
 	)))
 	p.AddObject(ast.NewObject("p", "Opts", ast.NewStruct(ast.NewStructField("level", ast.NewScalar(ast.KindInt64)))))
